@@ -17,7 +17,7 @@ struct Setting {
 
 fn settings() -> Vec<Setting> {
     let mut v = vec![];
-    for sep in [Some("."), Some("-"), Some("_"), None] {
+    for sep in [Some("."), Some("-"), Some("_"), Some("→"), Some("·"), None] {
         for lower in [false, true] {
             for keep in [false, true] {
                 for max in [None, Some(0), Some(1), Some(2), Some(3), Some(4), Some(6)] {
